@@ -39,9 +39,10 @@ Definition re_alts (alts : list string) (s : string) : pres string := first_pref
 Definition re_weight := re_alts ["weight"; "wt"; "w"; "mass"; "m"].
 Definition re_volume := re_alts ["volume"; "vol"; "v"].
 
-(* weight_percent = percent + weight | weight + percent + space *)
+(* weight_percent = ((percent + weight) | (weight + percent)) + space      (as repaired in /repo d014aa0: before it the
+   trailing blanks were consumed after the second spelling only, so "30%v 2Fe // Ni" did not parse) *)
 Definition p_kind_percent (re_kind : string -> pres string) (s : string) : pres unit :=
-  match (let* (_, r1) := lit "%"%char s in let* (_, r2) := re_kind r1 in POk tt r2) with
+  match (let* (_, r1) := lit "%"%char s in let* (_, r2) := re_kind r1 in POk tt (skip_ws r2)) with
   | POk _ r => POk tt r
   | PAbort e => PAbort e
   | PFail =>
@@ -49,12 +50,12 @@ Definition p_kind_percent (re_kind : string -> pres string) (s : string) : pres 
       let* (_, r2) := lit "%"%char r1 in
       POk tt (skip_ws r2)
   end.
-(* (weight_percent | percent) *)
+(* (weight_percent | percent + space) *)
 Definition p_kind_percent_or_bare (re_kind : string -> pres string) (s : string) : pres unit :=
   match p_kind_percent re_kind s with
   | POk _ r => POk tt r
   | PAbort e => PAbort e
-  | PFail => lit "%"%char s
+  | PFail => let* (_, r1) := lit "%"%char s in POk tt (skip_ws r1)
   end.
 
 Definition LENGTH_UNITS : list (string * Q) :=
